@@ -16,6 +16,21 @@ def claim(pid, design, text, note="", engine="coq-models"):
     CLAIMS[pid] = dict(design=design, text=text, note=note, engine=engine)
 
 
+claim("C01", "DESIGN.md section 4 C01 + section 11.8",
+      "proof (partial by composition): Coq theorems about the composed model Model/Pipeline.v (acquire -> sugar -> type following -> Op(parent "
+      "wrapped in MetaData per callback event, lambda) -> terminal -> value()'s cleaning -> backend passes) against an independently written "
+      "`direct` list semantics. Proved outright for every backend and dataset: value()'s cleaning and ext+agg preserve meaning; chains of any "
+      "length and operator order of string/ast lambdas in C10's grammar incl. comprehension sugar mean what `direct` computes "
+      "(operator_chain_means_direct), also for callables with literal captures in C04's first-order fragment "
+      "(captured_literals_chain_means_direct), through terminals and value(). Relative to named hypotheses about component models "
+      "(capture_sound, follow_sound for typed datasets and general callables; simp_ok for the simplifier, which C02's "
+      "simplifier_preserves_query_results provides for queries not mentioning First): query_means_chain, passes_preserve_meaning, "
+      "fluent_query_end_to_end. Data-class sugar, helper inlining and default filling are covered by the hypothesis-relative theorem plus the "
+      "exact correspondence and the executing oracle: generated Python programs (1-6 stages, branching, three ways of supplying lambdas, "
+      "captures, helpers, typed class models with callbacks, all terminals) run on a recording dataset and directly on in-memory sequences; "
+      "the recorded AST is evaluated by CPython as recorded and after each of the 13 compositions of the three passes on 6 datasets.",
+      "No axioms. Conventions md_identity/terminals_ok; a dict literal is a record; LINQ operators lazy, direct execution list semantics; the "
+      "closure snapshot and class table are read from live objects; 'source text = callable' is C03/C04's tie.")
 claim("C02", "DESIGN.md section 4 C02 + section 11",
       "proof: Coq theorem simplifier_preserves_query_results (Proofs/SimplifySound.v: simp_sound by strong induction on the fuel, over the whole "
       "traversal with its substitution stack, fresh-name counter, alpha-renaming, beta-reduction with Python argument binding, the seven fusion "
